@@ -93,6 +93,12 @@ func (rep *Report) Finish() int {
 			failed = append(failed, r)
 		}
 	}
+	retReachable := map[string]bool{}
+	for _, r := range rep.Results {
+		if r.Ob.ExpectSat && strings.HasSuffix(r.Ob.Name, "-reachable") && (r.Status == "sat" || r.Status == "unknown") {
+			retReachable[r.Ob.Func] = true
+		}
+	}
 	// group failures by obligation (across split instances)
 	groups := map[string][]*ObResult{}
 	var order []string
@@ -119,8 +125,13 @@ func (rep *Report) Finish() int {
 		v := &Violation{Obligation: k, Kind: best.Ob.Kind, Func: best.Ob.Func, Pos: best.Ob.Pos, Clause: best.Ob.Desc, Status: best.Status, Solver: best.Solver, Detail: best.Detail, Count: len(rs)}
 		if best.Ob.ExpectSat {
 			v.Reason = "vacuity guard: " + best.Ob.Desc + " is unsatisfiable"
-			// a return that is unreachable in some split instances only is not a failure
-			if best.Ob.Name != "V/requires-sat" && len(rs) < rep.instancesOf(best.Script) {
+			// an individual return may be unreachable under a contract case; it is a
+			// vacuity failure only if no return of the function is reachable at all
+			if strings.HasSuffix(best.Ob.Name, "-reachable") {
+				if retReachable[best.Ob.Func] {
+					continue
+				}
+			} else if best.Ob.Name != "V/requires-sat" && len(rs) < rep.instancesOf(best.Script) {
 				continue
 			}
 		}
